@@ -11,8 +11,8 @@
  "kind": "bounded",
  "bound": "declaration specifiers `const [_Alignas(OP)] int [_Alignas(OP)]` with 0..2 alignment specifiers; each operand a type name (complete object type, alignment 1..16) or a constant expression (any 64-bit value); alignment specifier allowed (align != NULL) or not",
  "timeout": 200, "replay": false,
- "assumes": ["next()/consume()/expect() are a token-script stand-in (PP.*); attr()/gnuattr() see no attribute (ATTR.*)",
-             "typename() (DECL.typename) is replaced by a stub: the operand token is a type name with a given type object, or not a type name; intconstexpr() (EXPR.*/EVAL.*) by a stub yielding the operand's value; tagspec() not reached",
+ "assumes": ["next()/consume()/expect() are a token-script stand-in (PP units); attr()/gnuattr() see no attribute (ATTR units)",
+             "typename() (DECL.typename) is replaced by a stub: the operand token is a type name with a given type object, or not a type name; intconstexpr() (expr.c, eval.c) by a stub yielding the value of the operand; tagspec() not reached",
              "no native replay: replaced callees are static",
              "type-name operands are complete object types (the other case is DECL.declspecs.alignas-incomplete, which fails on the pinned tree)"]
 }
